@@ -3,7 +3,7 @@ import math
 
 from engine import loader
 from engine.runner import Acc
-from engine.util import call, chunks
+from engine.util import call, chunks, vary_case
 from spec import altitude as AL
 from spec import bds_rules as BR
 from spec import commb_fields as CF
@@ -35,7 +35,7 @@ ONES = (1 << 56) - 1
 def carrier(mb, k=0, df=None, ac13=0x1838):
     d = df if df is not None else 20 + k % 2
     h14 = [0, 0x3FFF, 0x1555][k % 3]
-    return F.long_ap(d, (h14 << 13) | ac13, mb, [0x406B90, 0xABCDEF, 0xFFFFFF][k % 3])
+    return vary_case(F.long_ap(d, (h14 << 13) | ac13, mb, [0x406B90, 0xABCDEF, 0xFFFFFF][k % 3]), k // 3)
 
 
 def infer_set(msg, mrar):
@@ -210,13 +210,19 @@ def w_total(arg):
     return acc.res()
 
 
-def sound_cases():
+def sound_cases(thorough=False):
+    """every rule is broken from EVERY kind of otherwise-valid payload (each other field available / unavailable /
+    at its extremes), not only from a minimal one: a rule implemented under the wrong guard shows on some of them."""
     cases = []
     for reg, rules in BR.STATUS.items():
         bases = BR.valid(reg)
+        sub = bases if thorough else bases[:: len(bases) // 24 + 1]
         for sb, a, b in rules:
             fmask = sum(BR.bit(x) for x in range(a, b + 1))
             base = next((m for m in bases if m & BR.bit(sb) and m & fmask), None) or bases[0]
+            for x in (a, b, (a + b) // 2):
+                for m in sub:
+                    cases.append((reg, "status bit %d clear but field bit %d set" % (sb, x), (m & ~BR.bit(sb) & ~fmask) | BR.bit(x)))
             # (1) status cleared, field left non-zero
             if base & fmask:
                 cases.append((reg, "status bit %d clear but field %d-%d non-zero" % (sb, a, b), base & ~BR.bit(sb)))
@@ -225,9 +231,11 @@ def sound_cases():
                 cases.append((reg, "status bit %d clear but field bit %d set" % (sb, x), (base & ~BR.bit(sb) & ~fmask) | BR.bit(x)))
     for reg, bits in BR.RESERVED.items():
         bases = BR.valid(reg)
-        for x in bits:
-            for base in bases[:2]:
+        sub = bases if (thorough or len(bases) <= 600) else bases[:: len(bases) // 600 + 1]
+        for base in sub:
+            for x in bits:
                 cases.append((reg, "reserved bit %d set" % x, base | BR.bit(x)))
+            cases.append((reg, "all reserved bits set", base | sum(BR.bit(x) for x in bits)))
     cases += BR.header_breakers()
     for reg, why, inside, outside in BR.envelope_pairs():
         cases.append((reg, "envelope %s" % why, outside))
@@ -392,7 +400,9 @@ def w_any(t):
 
 def run(ctx):
     tasks = [("t", [df]) for df in range(32)] + [("g", None), ("y", None), ("q", 4 if ctx.thorough else 3)]
-    tasks += [("s", c) for c in chunks(sound_cases(), 60)]
+    sc = list(dict.fromkeys(sound_cases(ctx.thorough)))
+    ctx.cov["rule_breaking_payloads"] = len(sc)
+    tasks += [("s", c) for c in chunks(sc, 400)]
     amb = []
     for reg in REGS:
         mbs = BR.valid(reg)
